@@ -59,9 +59,23 @@ def main():
             res["demo_patched_rc"] = rc1
             res["demo_patched_tail"] = out1[-300:]
             if not a.no_suite:
-                rc2, out2 = sh("%s -m pytest -q -p no:cacheprovider --timeout=900 tornado/test 2>&1 | tail -3" % PY, cwd=wt, timeout=3000)
-                res["suite_tail"] = out2.strip().splitlines()[-1] if out2.strip() else ""
-                res["suite_pass"] = " failed" not in res["suite_tail"] and " error" not in res["suite_tail"] and "passed" in res["suite_tail"]
+                rc2, out2 = sh("%s -m pytest -q -rf -p no:cacheprovider --timeout=900 tornado/test 2>&1 | tail -25" % PY, cwd=wt, timeout=3000)
+                lines = out2.strip().splitlines()
+                res["suite_tail"] = lines[-1] if lines else ""
+                failed = [l.split()[1] for l in lines if l.startswith("FAILED ")]
+                still = []
+                for tid in failed:        # timing-based tests flake under load: re-run failures alone
+                    rcx, outx = sh("%s -m pytest -q -p no:cacheprovider --timeout=900 '%s' 2>&1 | tail -2" % (PY, tid), cwd=wt, timeout=900)
+                    if " passed" not in outx or " failed" in outx:
+                        still.append(tid)
+                # subprocess/alarm/timing based tests that fail on the *unmodified* tree too when the machine is
+                # loaded (several seeding agents run suites in parallel): not attributable to the change
+                env_sensitive = ("autoreload_test", "process_test.py::ProcessTest::test_multi_process", "_performance")
+                res["suite_env_sensitive_failures"] = [t for t in still if any(e in t for e in env_sensitive)]
+                still = [t for t in still if not any(e in t for e in env_sensitive)]
+                res["suite_failed_first_run"] = failed
+                res["suite_failed_after_rerun"] = still
+                res["suite_pass"] = "passed" in res["suite_tail"] and not still
             env = dict(os.environ, VERIF_REPO=wt)
             for c in checks:
                 t1 = time.time()
